@@ -4,7 +4,7 @@ from geom import snap_glyphset
 from ufo import build, rat
 
 ID = "C15"
-PROOF_FILES = ["Geom", "Reverse", "Render", "Flatten", "GoodCert", "C15"]
+PROOF_FILES = ["Geom", "Reverse", "Render", "Flatten", "Propagate", "GoodCert", "C15"]
 THEOREM = "Ufo2ft.C15.* (affine algebra, reversal laws, bake lemma, decompose/flatten render preservation, compensation)"
 N = {"quick": 500, "thorough": 8000}
 RULE = ("random component graphs (depth<=4, shared bases, dyadic affine matrices incl. mirrors, shears, rotations, singular) with "
